@@ -192,6 +192,26 @@ def hx1(F, R):
                     R.bad("HX1", "HX1/%s/range-altered" % label, b.where(site), "the range applied to the array is not the caller's range", detail)
                     continue
             R.ok("HX1", b.where(site), "%s: inline access guarded by `%s %s len`, other edge panics" % (label, part, op), detail)
+        # every value the impl returns is an access of the bytes (the inline array, the heap vector, or bytes()): a literal or a
+        # value built elsewhere (`&[]` for an "empty" range) returns normally where the byte slice's own index panics
+        def _alts(x, acc, depth=0):
+            x = strip_load(x)
+            if x[0] == "phi" and depth < 6:
+                for y in x[1]:
+                    _alts(y, acc, depth + 1)
+            else:
+                acc.append(x)
+            return acc
+        for r in b.returns:
+            for x in _alts(b.expr_local(0, (r, b.term_idx(r))), []):
+                base = strip_load(x[1]) if x[0] in ("elem", "slice", "index") and len(x) > 1 else None
+                ok = base is not None and ((base[0] == "vfield" and strip_load(base[1]) == ("param", 1) and base[3] == "0") or
+                                           (base[0] == "call" and base[1].endswith("::bytes")))
+                if not ok:
+                    R.bad("HX1", "HX1/%s/result-not-an-access-of-the-bytes" % label, b.where((r, b.term_idx(r))),
+                          "the impl can return a value that is not an element / sub-slice of the Hex's own bytes (a literal, an empty slice "
+                          "for an \"empty\" range): it returns normally for an index on which the byte slice's own indexing panics "
+                          "(a reversed range, an empty range past the end)", {"value": show(x, b)[:200]})
         # Vector arm: plain delegation to the Vec with the caller's index
         vec = [(s, base, idx, how) for (s, base, idx, how) in index_accesses(b)
                if strip_load(base)[0] == "vfield" and strip_load(base)[2] == "Vector"]
